@@ -28,9 +28,11 @@ def spell(rng, ns, default, allow_bad_units=True):
     return Fraction(ns, 10 ** E[u]), u
 
 
-def spell_interval(rng, node, a_ns, b_ns, default):
+def spell_interval(rng, node, a_ns, b_ns, default, force=None):
     """fills aw, bw, au, bu (for the model) and at, bt (literal texts) of a timed node"""
     style = rng.choice(["both", "both", "end", "begin", "none"])
+    if force and rng.random() < 0.7:
+        style = force
     if style == "none":
         ua = ub = default
         fa, fb = Fraction(a_ns, 10 ** E[default]), Fraction(b_ns, 10 ** E[default])
@@ -76,7 +78,7 @@ def shaped_past(rng, g):
     return phi
 
 
-def write_ast(rng, phi, period_ns, default, halfstep=None):
+def write_ast(rng, phi, period_ns, default, halfstep=None, force=None):
     """copy of phi (bounds in samples) with every timed node spelled out; halfstep: node index to make a non-multiple"""
     w = copy.deepcopy(phi)
     styles = []
@@ -94,7 +96,7 @@ def write_ast(rng, phi, period_ns, default, halfstep=None):
                     a_ns += period_ns // 2
                 else:
                     b_ns += period_ns // 2
-            styles.append(spell_interval(rng, q, a_ns, b_ns, default))
+            styles.append(spell_interval(rng, q, a_ns, b_ns, default, force))
             k += 1
     return w, styles
 
@@ -116,7 +118,7 @@ def main():
         rep.mc_violation("UnitsMC", r)
     shutil.rmtree(wd, ignore_errors=True)
     rng = random.Random(core.seed() * 7919 + 8)
-    n = 600 if quick else 12000
+    n = 900 if quick else 12000
     cases = []
     for i in range(n):
         S = 1
@@ -188,23 +190,34 @@ def main():
             for t in range(N):
                 evs += [ev_update(t, sample_at(w, t), k + 1) for k in range(K)]
             rels = [{"rel": "same_on_from", "x": 1 + int(bad), "y": k + 1, "k": (h + 1 if kind == "past" else 1)} for k in range(1 + int(bad), K)]
-        if kind == "off" and not bad and rng.random() < 0.3:
+        if kind == "off" and not bad and rng.random() < 0.45:
             # one more object that is first configured with half the sampling period and evaluated, then re-configured to the
             # case's period and evaluated on the case's data: the bounds are resolved at every evaluate(), so the result is that
             # of the other spellings (seeds C08-h, C01-h: sample counts memoised across evaluations)
             half = period_ns // 2
             hu = [u for u in ("s", "ms", "us", "ns") if half % 10 ** E[u] == 0 and half // 10 ** E[u] <= 100000][0]
             default = rng.choice(["s", "ms"])
-            written, styles = write_ast(rng, phi, period_ns, default)
-            oR = dt_obj(phi, S, vs, text="out = " + to_text(written, S), written=written, unit=default, styles=styles, consts=[],
-                        units={"def": default, "pnum": half // 10 ** E[hu], "pden": 1, "punit": hu}, set_period=[half // 10 ** E[hu], hu, 0.1])
-            objs.append(oR)
-            kR = len(objs)
             N0 = rng.choice([2, 3, 5])
             pn2, pu2 = rng.choice([(pnum, punit)] + [(pnum * 10 ** (E[punit] - E[u]), u) for u in ("ms", "us") if E[u] < E[punit] and pnum * 10 ** (E[punit] - E[u]) <= 100000])
-            evs += [ev_parse(kR), ev_evaluate(range(N0), gen_trace(rng, vs, N0, S, lo=-6, hi=6), kR),
-                    {"o": kR, "a": "config", "set_period": [pn2, pu2, 0.1], "units": {"def": default, "pnum": pn2, "pden": 1, "punit": pu2}},
-                    ev_evaluate(range(N), w, kR)]
+            if rng.random() < 0.5 and not (ops_of(phi) & {"sinceT", "untilT", "unlessT"}):
+                # ... or first configured with the next larger *default unit* (bounds written without a unit then mean 1000 times as
+                # many samples), evaluated, and then given the case's default unit (seed r9 C16-1: a memo of the sample counts that
+                # set_sampling_period() clears and spec.unit = ... does not)
+                default = rng.choice(["ms", "us"])
+                bigger = {"ms": "s", "us": "ms"}[default]
+                written, styles = write_ast(rng, phi, period_ns, default, force="none")
+                oR = dt_obj(phi, S, vs, text="out = " + to_text(written, S), written=written, unit=bigger, styles=styles, consts=[],
+                            units={"def": bigger, "pnum": pn2, "pden": 1, "punit": pu2}, set_period=[pn2, pu2, 0.1])
+                cfg = {"a": "config", "unit": default, "units": {"def": default, "pnum": pn2, "pden": 1, "punit": pu2}}
+            else:
+                written, styles = write_ast(rng, phi, period_ns, default)
+                oR = dt_obj(phi, S, vs, text="out = " + to_text(written, S), written=written, unit=default, styles=styles, consts=[],
+                            units={"def": default, "pnum": half // 10 ** E[hu], "pden": 1, "punit": hu}, set_period=[half // 10 ** E[hu], hu, 0.1])
+                cfg = {"a": "config", "set_period": [pn2, pu2, 0.1], "units": {"def": default, "pnum": pn2, "pden": 1, "punit": pu2}}
+            objs.append(oR)
+            kR = len(objs)
+            cfg["o"] = kR
+            evs += [ev_parse(kR), ev_evaluate(range(N0), gen_trace(rng, vs, N0, S, lo=-6, hi=6), kR), cfg, ev_evaluate(range(N), w, kR)]
             rels.append({"rel": "same_off", "x": 1, "y": kR})
         for o in objs:
             o["factory"] = fac
